@@ -88,14 +88,101 @@ def _steps(repo: Repo, m: Module, fn: ast.FunctionDef, depth: int = 0) -> List[T
     return out
 
 
+class BadSignUpdate(Exception):
+    """a pure sign update whose flip condition is not GF(2)-linear in (x, z): not a Pauli conjugation"""
+
+
+def _direct_sign_form(fn: ast.FunctionDef):
+    """Recognise a gate written as a pure sign update  `t.phase = t.phase ^ f(x_col, z_col)`  (table untouched), where x_col /
+    z_col are the X and Z columns of the gate's qubit.  f is tabulated over the four (x, z) bit pairs — a finite boolean
+    function, folded like a constant.  Returns the Pauli it denotes, raises BadSignUpdate if f is not linear, None if the body
+    has another shape."""
+    params = func_params(fn)
+    if len(params) != 2:
+        return None
+    tab, q = params
+    cols: Dict[str, str] = {}
+    nq = None
+    update = None
+    for st in fn.body:
+        if isinstance(st, ast.Expr) and isinstance(st.value, ast.Constant):
+            continue
+        if isinstance(st, ast.Assert):
+            continue
+        if isinstance(st, ast.Return):
+            if not (isinstance(st.value, ast.Name) and st.value.id == tab):
+                return None
+            continue
+        if isinstance(st, ast.Assign) and len(st.targets) == 1:
+            t, v = st.targets[0], st.value
+            if isinstance(t, ast.Name) and isinstance(v, ast.Attribute) and v.attr == "n_qubits":
+                nq = t.id
+                continue
+            if isinstance(t, ast.Name) and isinstance(v, ast.Subscript) and isinstance(v.slice, ast.Tuple) and len(v.slice.elts) == 2 \
+                    and norm(v.slice.elts[0]) == ":" and norm(v.value) in (f"{tab}.table", f"{tab}._table"):
+                idx = norm(v.slice.elts[1])
+                if idx == q:
+                    cols[t.id] = "x"
+                    continue
+                if nq and idx in (f"{nq} + {q}", f"{q} + {nq}"):
+                    cols[t.id] = "z"
+                    continue
+                return None
+            if isinstance(t, ast.Attribute) and norm(t) == f"{tab}.phase" and isinstance(v, ast.BinOp) and isinstance(v.op, ast.BitXor) \
+                    and norm(v.left) == f"{tab}.phase" and update is None:
+                update = v.right
+                continue
+        return None
+    if update is None:
+        return None
+
+    def col_kind(e):
+        if isinstance(e, ast.Subscript) and isinstance(e.slice, ast.Tuple) and len(e.slice.elts) == 2 and norm(e.slice.elts[0]) == ":" \
+                and norm(e.value) in (f"{tab}.table", f"{tab}._table"):
+            idx = norm(e.slice.elts[1])
+            if idx == q:
+                return "x"
+            if nq and idx in (f"{nq} + {q}", f"{q} + {nq}"):
+                return "z"
+        return None
+
+    def ev(e, env):
+        if isinstance(e, ast.Name) and e.id in cols:
+            return env[cols[e.id]]
+        if col_kind(e):
+            return env[col_kind(e)]
+        if isinstance(e, ast.Constant) and e.value in (0, 1):
+            return int(e.value)
+        if isinstance(e, ast.BinOp):
+            a, b = ev(e.left, env), ev(e.right, env)
+            if isinstance(e.op, ast.BitXor):
+                return a ^ b
+            if isinstance(e.op, ast.BitOr):
+                return a | b
+            if isinstance(e.op, (ast.BitAnd, ast.Mult)):
+                return a & b
+        if isinstance(e, ast.UnaryOp) and isinstance(e.op, ast.Invert):
+            return 1 - ev(e.operand, env)
+        raise Unsummarisable(f"sign expression {short(e)}")
+
+    tt = tuple(ev(update, {"x": x, "z": z}) for x in (0, 1) for z in (0, 1))  # (x,z) = 00, 01, 10, 11
+    pauli = {(0, 0, 0, 0): cl.I2, (0, 1, 0, 1): cl.X, (0, 0, 1, 1): cl.Z, (0, 1, 1, 0): cl.Y}.get(tt)
+    if pauli is None:
+        raise BadSignUpdate(f"sign is flipped for (x,z) in {[xz for xz, b in zip(['00', '01', '10', '11'], tt) if b]}")
+    return pauli
+
+
 def summarise(repo: Repo, name: str):
-    """Model element (matrix) of transformation.<name>, or raise Unsummarisable."""
+    """Model element (matrix) of transformation.<name>, or raise Unsummarisable / BadSignUpdate."""
     m = repo.module(TRANSFORM)
     fn = m.find(name)
     if not isinstance(fn, ast.FunctionDef):
         raise AnalysisError(f"anchor missing: {TRANSFORM}::{name}")
     if name in PRIMITIVES:
         return PRIMITIVES[name]
+    direct = _direct_sign_form(fn)
+    if direct is not None:
+        return "1", direct
     steps = _steps(repo, m, fn)
     nq = len(func_params(fn)) - 1
     if fn.args.vararg is not None:
@@ -136,6 +223,12 @@ def rule_derived_gates(ctx: Ctx, rule: str = "effect.derived-gate"):
         ctx.touch(m, fn)
         try:
             k, u = summarise(repo, name)
+        except BadSignUpdate as e:
+            ctx.fail(rule, m, fn,
+                     f"`{name}` updates only the sign vector, but its flip condition is not the commutation rule of any Pauli ({e}): a generator "
+                     f"that commutes with the gate gets its sign flipped (or an anticommuting one does not)",
+                     construct=f"{name}: non-Pauli sign update", func=name)
+            continue
         except Unsummarisable as e:
             raise AnalysisError(f"{TRANSFORM}::{name}: body is not a straight-line composition of gate functions ({e})")
         if k == kind and cl.key(u) == cl.key(want):
@@ -193,3 +286,13 @@ def dm_matrix_of(repo: Repo, expr: ast.AST, m: Module):
                 except consteval.NotConstant as e:
                     raise AnalysisError(f"{mod.rel}::{name}: not a closed matrix literal ({e})")
     raise AnalysisError(f"cannot fold gate expression {short(expr)}")
+
+
+
+def summarise_or_none(repo: Repo, name: str):
+    """summarise(), but a function whose sign update is not a Pauli conjugation yields None: that defect is reported by
+    effect.derived-gate; rules that merely *use* the summary skip the function instead of crashing."""
+    try:
+        return summarise(repo, name)
+    except BadSignUpdate:
+        return None
